@@ -258,11 +258,17 @@ def build_tree(sc: dict, root: str) -> T.Tuple[str, str, T.List[str]]:
     if top_do:
         top += ', default_options: ' + do_list(top_do, form)
     top += ')\n' + probe_lines('top', top_probe, kinds_top)
-    if not sc.get('no_sub'):
-        top += "subproject('sub'"
+    hist = sc.get('history') or {}
+    if not sc.get('no_sub') and not sc.get('omit_subcall'):
+        call = "subproject('sub'"
+        if hist.get('mode') == 'retry':
+            call += ', required: false'
         if call_do:
-            top += ', default_options: ' + do_list(call_do, form)
-        top += ')\n' + probe_lines('top2', top_probe, kinds_top)
+            call += ', default_options: ' + do_list(call_do, form)
+        call += ')\n'
+        if hist.get('mode') == 'late-gate':
+            call = "if get_option('vf_use_sub')\n  " + call + 'endif\n'
+        top += call + probe_lines('top2', top_probe, kinds_top)
     sub = f"project('sub'{langarg}, meson_version: '>=1.8.0'"
     if sub_do:
         sub += ', default_options: ' + do_list(sub_do, form)
@@ -270,8 +276,10 @@ def build_tree(sc: dict, root: str) -> T.Tuple[str, str, T.List[str]]:
     files = {'meson.build': top}
     if not sc.get('no_sub'):
         files['subprojects/sub/meson.build'] = sub
-    if sc['top_decl']:
+    if sc['top_decl'] or hist.get('mode') == 'late-gate':
         files['meson.options'] = ''.join(decl_line(n, d) for n, d in sc['top_decl'].items())
+        if hist.get('mode') == 'late-gate':
+            files['meson.options'] += "option('vf_use_sub', type: 'boolean', value: false)\n"
     if sc['sub_decl'] and not sc.get('no_sub'):
         files['subprojects/sub/meson.options'] = ''.join(decl_line(n, d) for n, d in sc['sub_decl'].items())
     # machine file
@@ -349,7 +357,39 @@ def run_scenario(sc: dict, root: str) -> dict:
     shutil.rmtree(root, ignore_errors=True)
     os.makedirs(root)
     try:
-        src, bdir, argv = build_tree(sc, root)
+        hist = sc.get('history')
+        pre: dict = {}
+        if hist:
+            # phase 1: a setup that does not (successfully) configure the subproject, all sources already given
+            sc1 = json.loads(json.dumps(sc))
+            if hist['mode'] == 'late-edit':
+                sc1['omit_subcall'] = True
+            elif hist['mode'] == 'retry':
+                for e in sc1['src'][hist['poison_source']]:
+                    if e[0] == hist['poison_name']:
+                        e[1] = hist['poison_value']
+            src, bdir, argv1 = build_tree(sc1, root)
+            r1 = runner.meson(argv1, cwd=src, env={'MESON_FORCE_BACKTRACE': ''}, timeout=120)
+            pre = {'phase1_rc': r1.rc, 'phase1_argv': argv1[:-2]}
+            sub_ran = 'Message: VF|sub|' in r1.out
+            if r1.timed_out or r1.traceback or r1.rc != 0 or sub_ran:
+                return {'id': sc['id'], 'rc': r1.rc, 'timed_out': r1.timed_out, 'traceback': r1.traceback, 'wall': r1.wall,
+                        'mismatch': [], 'counts': {}, 'argv': argv1[:-2], 'phase1_stopped': True, 'phase1_sub_ran': sub_ran,
+                        'configured': os.path.exists(os.path.join(bdir, 'meson-private', 'coredata.dat')),
+                        'err_tail': (r1.out[-600:] if r1.rc != 0 else '') + r1.err[-600:], **pre}
+            # phase 2: the (corrected) tree, reconfigured without repeating what the first command line said
+            build_tree(sc1 if 'fix_via_cmd' in hist else sc, root)
+            extra: T.List[str] = []
+            if hist['mode'] == 'late-gate':
+                extra = ['-Dvf_use_sub=true']
+            elif hist['mode'] == 'retry' and 'fix_via_cmd' in hist:
+                extra = [f"-Dsub:{hist['poison_name']}={emit_cmd(hist['fix_via_cmd'], hist['poison_name'])}"]
+            elif hist['mode'] == 'retry' and hist['poison_source'] == S8:
+                good = [v for n, v in sc['src'][S8] if n == hist['poison_name']][0]
+                extra = [f"-Dsub:{hist['poison_name']}={emit_cmd(good, hist['poison_name'])}"]
+            argv = ['setup', '--reconfigure'] + extra + [bdir, src]
+        else:
+            src, bdir, argv = build_tree(sc, root)
         names = sorted(set(sc['probe_top']) | set(sc['probe_sub']))
         probes: T.List[T.Tuple[str, T.Optional[str]]] = []
         for n in sc['probe_top']:
@@ -359,8 +399,10 @@ def run_scenario(sc: dict, root: str) -> dict:
         trace = set(names) | {'buildtype', 'debug', 'optimization', 'prefix'}
         r = runner.meson(argv, cwd=src, env={'MESON_FORCE_BACKTRACE': ''}, monitors=[mon.make(bdir, probes, sorted(trace))], timeout=120)
         res: dict = {'id': sc['id'], 'rc': r.rc, 'timed_out': r.timed_out, 'traceback': r.traceback,
-                     'wall': r.wall, 'mismatch': [], 'counts': {}, 'argv': argv[:-2]}
+                     'wall': r.wall, 'mismatch': [], 'counts': {}, 'argv': argv[:-2], **pre}
         cnt = res['counts']
+        if hist:
+            cnt['monitor:first_init_by_later_command:' + hist['mode']] = 1
         if r.timed_out:
             return res
         configured = os.path.exists(os.path.join(bdir, 'meson-private', 'coredata.dat'))
@@ -705,6 +747,57 @@ def gen_yield_type_mismatch(thorough: bool, seed: int) -> T.List[dict]:
     return out
 
 
+def gen_histories(thorough: bool, seed: int, rng: T.Any) -> T.List[dict]:
+    """The subproject is initialised for the first time by a LATER command on the same build directory:
+      late-edit   setup while the parent does not call subproject() yet; the call is added; setup --reconfigure
+      late-gate   the call sits behind a boolean project option; setup --reconfigure -Dvf_use_sub=true
+      retry       subproject(required: false): the first attempt is aborted by an invalid value at the winning
+                  source of one option (rejected, subproject disabled, setup succeeds); the value is corrected
+                  (file edit, or -Dsub:opt on the reconfigure command line); setup --reconfigure
+    All eight sources were already given to the first command; nothing is repeated.  The eight-step order is
+    about the sources, not about which command first reaches the subproject, so the expectation is the one of
+    a fresh setup."""
+    out: T.List[dict] = []
+    pk = list(PROJECT_KINDS)
+    base_masks = sorted({1 << i for i in range(8)} | {0b00001010, 0b10001000, 255})
+    if thorough:
+        masks = list(range(1, 256))
+    else:
+        masks = base_masks + rng.sample([m for m in range(1, 255) if m not in base_masks], 3)
+    for group, names, scope in (('LPN', pk, 'project'), ('LBS', BUILTIN_PERSUB, 'builtin_persub')):
+        for j, mask in enumerate(masks):
+            for mode in (('late-edit', 'late-gate') if thorough else (('late-edit', 'late-gate')[(j + seed) % 2],)):
+                sc = gen_subsets(group, names, scope, [mask], seed)[0]
+                sc['id'] += ':' + mode
+                sc['history'] = {'mode': mode}
+                out.append(sc)
+    # retry: poison the winning source of one option
+    plans = [('RPN', pk, 'project', ['pc', 'pi']), ('RBS', BUILTIN_PERSUB, 'builtin_persub', ['unity_size', 'warning_level'])]
+    for group, names, scope, poisonable in plans:
+        for si, s_ in enumerate(R.SUB_SPECIFIC):
+            bit = 1 << S.index(s_)
+            lower = bit - 1
+            lows = {0, lower} | ({rng.randrange(lower + 1) for _ in range(6)} if thorough else set())
+            for k, low in enumerate(sorted(lows)):
+                mask = bit | low
+                pname = poisonable[(si + k + seed) % len(poisonable)]
+                inv = [x for x in invalid_values(pname) if 'str' in x[2] and 'ini' in x[2]]
+                cls, val, _forms = inv[(si + k) % len(inv)]
+                sc = gen_subsets(group, names, scope, [mask], seed)[0]
+                sc['id'] += f':retry:{s_}:{pname}:{cls}'
+                sc['history'] = {'mode': 'retry', 'poison_source': s_, 'poison_name': pname, 'poison_value': val,
+                                 'poison_class': cls}
+                if s_ == S5:
+                    # project(default_options) of the already configured parent is only used by its first
+                    # configuration, so editing it is no correction; the user overrides it with -Dsub:opt instead
+                    good2 = rich_value(pname, 9) if domain(pname) is None else \
+                        [c for c in spec_of(pname).choices if c not in (spec_of(pname).default,)][-1]
+                    sc['history']['fix_via_cmd'] = good2
+                    sc['expect']['sub|' + pname] = {'value': good2, 'winner': S8, 'documented': True, 'allowed': None}
+                out.append(sc)
+    return out
+
+
 BT_VALUES = ['plain', 'debug', 'debugoptimized', 'release', 'minsize']
 OPT_VALUES = ['plain', '0', 'g', '1', '2', '3', 's']
 
@@ -719,7 +812,7 @@ def gen_buildtype(seed: int, thorough: bool, rng: T.Any) -> T.List[dict]:
         must = [c for c in combos if bin(c).count('1') <= 2]
         rest = [c for c in combos if bin(c).count('1') > 2]
         rng.shuffle(rest)
-        combos = must + rest[:70]
+        combos = must + rest[:30]
     for c in combos:
         present: T.Dict[str, T.Dict[str, T.Any]] = {}
         bts = BT_VALUES[:]
@@ -850,10 +943,12 @@ def gen_invalid(thorough: bool, seed: int) -> T.List[dict]:
               'wrap_mode', 'errorlogs', 'python.platlibdir', 'pkg_config_path']:
         plan.append((n, 'builtin_global'))
     for name, scope in plan:
-        for cls, val, forms in invalid_values(name):
-            for s in SCOPE_SOURCES[scope]:
+        for ci, (cls, val, forms) in enumerate(invalid_values(name)):
+            for si, s in enumerate(SCOPE_SOURCES[scope]):
                 mf = s in (S3, S7)
                 if ('ini' if mf else 'str') not in forms:
+                    continue
+                if not thorough and (ci + si + seed) % 2:
                     continue
                 sc = new_sc(f'INV:{name}:{scope}:{cls}:{s}', 'INV', expect_fail=True, inv_class=cls,
                             inv_source=s, inv_name=name, scope=scope,
@@ -1026,8 +1121,7 @@ def gen_c(thorough: bool, seed: int, cross: bool = False) -> T.List[dict]:
     if thorough:
         masks = list(range(256))
     else:
-        masks = sorted({0, 255} | {1 << i for i in range(8)} | {(1 << i) | (1 << (i + 1)) for i in range(7)}
-                       | {0b00001111, 0b11110000, 0b01010101, 0b10101010})
+        masks = sorted({0, 255} | {1 << i for i in range(8)} | {0b00001010, 0b00110000, 0b11000000, 0b00000110})
     group = 'CX' if cross else 'CC'
     names = ['c_args', 'c_std', 'unity_size']
     out = []
@@ -1106,13 +1200,14 @@ def classify(sc: dict, mm: dict) -> str:
 def worker(arg: T.Tuple[dict, str]) -> dict:
     sc, root = arg
     res = run_scenario(sc, root)
-    if res.get('rc') == 0 and any(not e['documented'] for e in sc['expect'].values()):
+    if res.get('rc') == 0 and any(not e['documented'] for e in sc['expect'].values()) and \
+            (os.environ.get('VERIF_TIER') == 'thorough' or sc['group'] in ('YT', 'PY', 'BGS', 'DIRS', 'PSY')):
         # cells the documents do not order: at least the same answer every time
         again = run_scenario(sc, root + '-again')
         res['rerun_same'] = (again.get('rc') == res.get('rc') and again.get('observed') == res.get('observed'))
         res['rerun_observed'] = again.get('observed')
     # minimise: re-run every mismatching option alone
-    if res.get('mismatch') and len(sc['probe_top']) + len(sc['probe_sub']) > 2 and sc['group'] not in ('BT', 'BTS', 'DIR', 'DIRS'):
+    if res.get('mismatch') and len(sc['probe_top']) + len(sc['probe_sub']) > 2 and sc['group'] not in ('BT', 'BTS', 'DIR', 'DIRS') and not sc.get('history'):
         minimal = []
         for mm in res['mismatch']:
             single = single_option(sc, mm['name'])
@@ -1138,7 +1233,7 @@ def single_option(sc: dict, name: str) -> dict:
 
 
 def slim(res: dict) -> dict:
-    return {k: res.get(k) for k in ('id', 'rc', 'traceback', 'configured', 'mismatch', 'invariant_bad', 'err_tail', 'argv', 'trace', 'observed')}
+    return {k: res.get(k) for k in ('id', 'rc', 'traceback', 'configured', 'mismatch', 'invariant_bad', 'err_tail', 'argv', 'trace', 'observed', 'phase1_rc', 'phase1_argv', 'phase1_stopped')}
 
 
 def source_view(sc: dict) -> dict:
@@ -1179,6 +1274,21 @@ def judge(chk: common.Check, sc: dict, res: dict, orders: T.Dict[str, int]) -> N
     chk.merge_counts(res.get('counts', {}))
     if res.get('timed_out'):
         chk.inconclusive_case('watchdog')
+        return
+    hist = sc.get('history')
+    if hist and res.get('phase1_stopped'):
+        w = {'scenario': source_view(sc), 'full_scenario': sc, 'result': slim(res), 'phase': 1}
+        if res.get('traceback') or res['rc'] not in (0, 1):
+            chk.violation(f'internal-error:{g}:phase1', w)
+        elif hist['mode'] != 'retry':
+            chk.violation(f'valid-configuration-rejected:{g}:phase1' if res['rc'] else f'subproject-ran-before-it-was-called:{g}', w)
+        elif res.get('phase1_sub_ran'):
+            chk.violation(f'invalid-accepted:{sc.get("scope")}:{hist["poison_class"]}:{hist["poison_source"]}:optional-subproject', w)
+        else:
+            # the whole setup was refused instead of only disabling the optional subproject: also a rejection
+            chk.count('retry_phase1_rejected_whole_setup')
+            if res.get('configured'):
+                chk.violation(f'failed-setup-left-configured:{g}:phase1', w)
         return
     if res.get('traceback') or res['rc'] not in (0, 1):
         mech = f'internal-error:{g}:{sc.get("inv_class", "valid")}'
@@ -1227,6 +1337,13 @@ def judge(chk: common.Check, sc: dict, res: dict, orders: T.Dict[str, int]) -> N
                                                     'second_run_observed': res.get('rerun_observed')})
     for mm in res.get('mismatch', []):
         mech = classify(sc, mm)
+        if hist:
+            mech = f'first-init-by-{hist["mode"]}:' + mech
+            if hist['mode'] == 'retry' and hist['poison_source'] == S5 and mm['expected']['winner'] == S5 \
+                    and mm['name'] != hist['poison_name'] and mm['where'] == 'sub':
+                # values the parent gave as sub:opt and that the aborted attempt had already taken out of
+                # pending_subproject_options are gone when the subproject is initialised again
+                mech = 'aborted-first-init-consumes-parent-sub-defaults'
         w = {'scenario': source_view(sc), 'full_scenario': sc, 'mismatch': mm, 'result': slim(res)}
         for m in res.get('minimal', []):
             if any(x['name'] == mm['name'] and x['where'] == mm['where'] for x in m['result']['mismatch']):
@@ -1243,11 +1360,12 @@ def scenarios(chk: common.Check) -> T.List[dict]:
     all256 = range(256)
     out: T.List[dict] = []
     pk = list(PROJECT_KINDS)
+    out += gen_directed()
     out += gen_top16(seed)
     out += gen_subsets('PN', pk, 'project', all256, seed, both_variants=thorough)
     out += gen_subsets('BS', BUILTIN_PERSUB, 'builtin_persub', all256, seed, both_variants=thorough)
     ymasks = list(all256) if thorough else [m for m in all256 if not (m & 0b01110010)] + \
-        chk.rng.sample([m for m in all256 if m & 0b01110010], 40)
+        chk.rng.sample([m for m in all256 if m & 0b01110010], 20)
     out += gen_subsets('PY', pk, 'project_yield', ymasks, seed, both_variants=thorough)
     out += gen_subsets('PS', pk, 'project_subonly', [m for m in all256 if not (m & 0b00001101)], seed, both_variants=thorough)
     gmasks = [m for m in all256 if not (m & 0b11110010)]
@@ -1256,12 +1374,12 @@ def scenarios(chk: common.Check) -> T.List[dict]:
     out += gen_dirs(seed, thorough)
     out += gen_prefix_spellings(thorough)
     out += gen_yield_type_mismatch(thorough, seed)
+    out += gen_histories(thorough, seed, chk.rng)
     out += gen_buildtype(seed, thorough, chk.rng)
     out += gen_buildtype_sub(seed)
     out += gen_invalid(thorough, seed)
     out += gen_unknown()
     out += gen_overridden_invalid(seed)
-    out += gen_directed()
     out += gen_boundaries()
     out += gen_machine_file_directed(thorough)
     out += gen_c(thorough, seed)
@@ -1273,6 +1391,10 @@ def scenarios(chk: common.Check) -> T.List[dict]:
         out += gen_subsets('BSx', BUILTIN_PERSUB, 'builtin_persub', all256, seed, cross=True)
         out += gen_subsets('PNx', pk, 'project', all256, seed, cross=True,
                            native_decoy="[project options]\nps = 'vf_decoy'\npi = 999\n[sub:project options]\nps = 'vf_decoy'\npi = 999\n")
+    # a time cut (quick: 150 s) drops the tail: cheap, deciding groups first, the C-compiler group last
+    prio = ['KF', 'T16', 'PN', 'BS', 'LPN', 'LBS', 'RPN', 'RBS', 'YT', 'DIRS', 'PY', 'PS', 'INV', 'UNK', 'DIR', 'BT', 'BTS',
+            'BG', 'BGS', 'BND', 'MF', 'OVI']
+    out.sort(key=lambda sc: prio.index(sc['group']) if sc['group'] in prio else len(prio) + (sc['group'] in ('CC', 'CX')))
     return out
 
 
@@ -1327,7 +1449,9 @@ def main() -> int:
     for name in ('monitor:get_option_message', 'monitor:inprocess_get_value_for', 'monitor:intro_buildoptions_top',
                  'monitor:invariant:init_top', 'monitor:invariant:init_sub', 'monitor:invariant:save',
                  'monitor:invariant:loaded', 'monitor:set_option_calls', 'monitor:set_user_option_calls',
-                 'monitor:invalid_value_rejection', 'monitor:value_comparison'):
+                 'monitor:invalid_value_rejection', 'monitor:value_comparison',
+                 'monitor:first_init_by_later_command:late-edit', 'monitor:first_init_by_later_command:late-gate',
+                 'monitor:first_init_by_later_command:retry'):
         if not only:
             chk.require(name, 1)
     groups = sorted({s['group'] for s in scs})
